@@ -46,11 +46,16 @@ def main():
     gomut = os.path.join(BASE, "gomut")
     rc, o = sh(["go", "build", "-o", gomut, "./tools/gomut"], VERIF)
     if rc: print(o); sys.exit(2)
+    # a pristine copy of HEAD to read the sources from (the working tree of /repo may be patched by a
+    # seed check running at the same time)
+    src = os.path.join(BASE, "src")
+    shutil.rmtree(src, ignore_errors=True); os.makedirs(src)
+    subprocess.run("git -C %s archive HEAD | tar -x -C %s" % (REPO, src), shell=True, check=True)
     tasks = []
     for f, ids in props.items():
         if files and f not in files: continue
         if f.endswith("_qletters.go"): continue
-        rc, o = sh([gomut, "-file", os.path.join(REPO, f), "-list"], VERIF)
+        rc, o = sh([gomut, "-file", os.path.join(src, f), "-list"], VERIF)
         for line in o.splitlines():
             if line.startswith("{"):
                 s = json.loads(line)
@@ -100,7 +105,7 @@ def main():
             res = {"file": f, "id": s["id"], "line": s["line"], "kind": s["kind"], "func": s["func"], "orig": s["orig"][:80], "repl": s["repl"][:80]}
             t0 = time.time()
             path = os.path.join(wt, f)
-            rc, o = sh([gomut, "-file", os.path.join(REPO, f), "-apply", str(s["id"]), "-out", path], VERIF)
+            rc, o = sh([gomut, "-file", os.path.join(src, f), "-apply", str(s["id"]), "-out", path], VERIF)
             pkg = "./" + os.path.dirname(f)
             try:
                 rc, o = sh(["go", "build", pkg], wt, timeout=300)
